@@ -835,6 +835,8 @@ def check_cfg(run, lst, ob):
             pend_ = []
         elif t_.t == "D":
             pend_ = []
+    bpos_now = {t_.bid: (si_, t_.pos) for si_, ii_, t_ in lst.all_tokens()
+                if t_.t == "B"}
     fn_orig_ret_left = {t.fn for t in instr_at.values()
                         if t.kind == "ret" and t.patch is None}
     missing_ft_src0 = {(m[0], m[1]) for m in missing if m[2] == "ft"}
@@ -968,6 +970,16 @@ def check_cfg(run, lst, ob):
                 # retarget_to_proxy before the call itself was deleted
                 return (f"extra-site:{origin}-ret:no-call-there:"
                         "called-block-proxy-deleted")
+            if tok.fn is not None and \
+                    fn_of_label_now.get(tok.fn, tok.fn) != tok.fn and any(
+                        bpos_now.get(b) == (tgt[1], tgt[2])
+                        for b in input_site_blocks.get(tok.fn, ())):
+                # (F24) the function's entry label slid onto another
+                # function's code, so its calls have another callee now and
+                # its returns are no longer maintained: the old site edge
+                # stays when code is put between the call and that site
+                return (f"extra-site:{origin}-ret:no-call-there:"
+                        "stale-site-of-a-callee-changed-by-label-slide")
             return f"extra-site:{origin}-ret:no-call-there"
         if tok.fn is not None and any(
                 b in lst.proxy_deleted
